@@ -182,7 +182,19 @@ class Validation(Part):
                 av = vector_argv(v)
                 want = decide(v)
                 cfg_text = {"empty-input-config": "input =\n", "empty-output-config": "output =\n"}.get(v["io"])
+                # the map path may hold the map of an earlier run: a rejected invocation leaves it as it is
+                old_map = None
+                if v["dump"] and (len(vs) == 1 or (vs.index(v) % 2 == 0)):
+                    old_map = b"11.22.33.44\t11.17.53.44\n"
+                    with open(os.path.join(d, "map.txt"), "wb") as f:
+                        f.write(old_map)
                 status, out, dump, extra_paths = run_main(d, av, cfg_text)
+                if old_map is not None:
+                    if decide(v) in ("reject", "noop") and dump != old_map:
+                        res.violation("existing-map-file-changed-by-a-rejected-invocation",
+                                      "argv %r: the map file held %r, afterwards %r" % (av, old_map, dump), {"v": v})
+                    if dump == old_map:
+                        dump = None      # untouched: nothing was written there
                 if v["io"].startswith("empty-") and not extra_paths:
                     # an empty path must not be read as the current directory either: nothing new in it
                     extra_paths = sorted(set(os.listdir(os.path.join(d, "in"))) - {"r1.cfg"})
